@@ -228,10 +228,21 @@ CaseResult run_static(const RunCtx &ctx, TapeReader &t, unsigned size_hint) {
                 std::ostringstream m;
                 m << "level " << e.level << " predicted=" << e.predicted << " first_inspected=" << e.first << " chosen="
                   << e.chosen << " responsible=" << right << " level_entries=" << e.level_size << " EpsRec=" << ER << ": ";
-                if (e.chosen != right) {
-                    res.fail("routing chose a segment that is not the rightmost one with key <= query: " + m.str() + where());
-                    bad = true;
-                    break;
+                // The chosen segment must be responsible for the key: key[chosen] <= k < key[chosen + 1] (chosen == 0 also for keys below
+                // the level).  On a sorted level that is THE rightmost segment with key <= k.  A level can end with the library's extra
+                // (data_last + 1) segment behind a segment keyed data_last + 2 (the closing point of the level below that opened a
+                // segment of its own): such a level is not sorted at its very end, two segments satisfy the condition for the key
+                // data_last + 1, and the property - the responsible segment is within EpsRec+1 of the prediction, the scan stays in
+                // the window - holds for either.  Demanding the rightmost one there was a false alarm of the thorough tier.
+                {
+                    const size_t cnt = idx.level_entries((size_t) e.level) - 1; // sentinel excluded
+                    const bool lower_ok = e.chosen == 0 || idx.seg_key((size_t) e.level, e.chosen) <= k;
+                    const bool upper_ok = e.chosen + 1 >= cnt + 1 || idx.seg_key((size_t) e.level, e.chosen + 1) > k;
+                    if (e.chosen >= cnt || !lower_ok || !upper_ok) {
+                        res.fail("routing chose a segment that is not responsible for the key (key[chosen] <= query < key[chosen+1] fails): " + m.str() + where());
+                        bad = true;
+                        break;
+                    }
                 }
                 if (dev > ER + 1) {
                     res.fail("responsible segment farther than EpsRec+1 from the prediction: " + m.str() + where());
